@@ -124,6 +124,22 @@ def lateInventory : List (String × Share) := [
   ("mp.NextIterator.gs{}(*atomic.Uint64)", .sync [lockGs])
 ]
 
+/-- units of the scenario definition classed `ro` whose fields have access sites in the regenerated table: (label, table
+object) -/
+def roBacked : List (String × String) := [
+  ("postprocessor.VarHeaderPostprocessor.Mapping(map)", "components/providers/scenario/http/postprocessor.VarHeaderPostprocessor.Mapping"),
+  ("postprocessor.VarJsonpathPostprocessor.Mapping(map)", "components/providers/scenario/http/postprocessor.VarJsonpathPostprocessor.Mapping"),
+  ("postprocessor.VarXpathPostprocessor.Mapping(map)", "components/providers/scenario/http/postprocessor.VarXpathPostprocessor.Mapping"),
+  ("postprocessor.AssertResponse.Body(slice)", "components/providers/scenario/http/postprocessor.AssertResponse.Body"),
+  ("postprocessor.AssertResponse.Headers(map)", "components/providers/scenario/http/postprocessor.AssertResponse.Headers"),
+  ("postprocessor.AssertResponse.Size(*postprocessor.AssertSize)", "components/providers/scenario/http/postprocessor.AssertResponse.Size"),
+  ("preprocessor.Preprocessor.Mapping(map)", "components/providers/scenario/http/preprocessor.Preprocessor.Mapping"),
+  ("preprocessor.Preprocessor.iterator(*mp.NextIterator)", "components/providers/scenario/http/preprocessor.Preprocessor.iterator"),
+  ("preprocessor.PreparePreprocessor.Mapping(map)", "components/providers/scenario/grpc/preprocessor.PreparePreprocessor.Mapping"),
+  ("preprocessor.PreparePreprocessor.iterator(*mp.NextIterator)", "components/providers/scenario/grpc/preprocessor.PreparePreprocessor.iterator"),
+  ("vs.SourceStorage.sources(map)", "components/providers/scenario/vs.SourceStorage.sources")
+]
+
 def classOf (label : String) : Option Share :=
   match inventory.find? (·.label == label) with
   | some e => some e.cls
@@ -199,9 +215,15 @@ def closureKey (label : String) : String :=
 
 def scannedPkg (key : String) : Bool := key.startsWith "components/" || key.startsWith "core/" || key.startsWith "lib/"
 
+/-- the canonical name of a function literal ends in `.func<N>[.<M>…]`; anything else the walker may report (a method
+value `T.M-fm`, whose state is its receiver, or — should the walker fail to tell static function values apart — a plain
+function) is not a literal and has no row -/
+def isLiteralKey (key : String) : Bool := (key.splitOn ".func").length ≥ 2 && !key.endsWith "-fm"
+
 /-- a closure object both instances reach: calling it must not change it -/
 def judgeSharedClosure (label : String) : Option String :=
   let key := closureKey label
+  if !isLiteralKey key then none else
   match closureOf key with
   | some c => if c.stateful then some s!"fail:shared-closure:{label}: {closureText c}" else none
   | none => if scannedPkg key then some s!"fail:shared-closure:{label}: not in the regenerated closure table" else none
